@@ -196,6 +196,17 @@ func runC07(c *core.Ctx, r *core.Result) {
 						if d := stripOuter(tm.Annotations(inner)).Diff(stripOuter(tm.Annotations(marked))); d != "" {
 							return fail("mark-accessor", "Mark changes an accessor of the marked error: %s", short(d))
 						}
+						// below another layer the mark reference must not become
+						// part of the identity of the enclosing layers: two errors
+						// that differ only in the reference they were marked with
+						// have the same text and the same type chain
+						other := at.Op.Build(at.S, at.Kid.Build(), []error{errors.New("verif another reference")})
+						for _, ctx := range []func(error) error{errors.WithStack, func(e error) error { return errors.WithHint(e, "h") }} {
+							a, b := ctx(marked), ctx(other)
+							if ok, p := tm.IsG(a, b); !ok || p {
+								return fail("mark-identity", "ctx(Mark(e, r1)) and ctx(Mark(e, r2)) are not equivalent although they have the same text and type chain (panic=%v)", p)
+							}
+						}
 						for _, x := range refs {
 							base, _ := tm.IsG(inner, x.Err)
 							got, _ := tm.IsG(marked, x.Err)
